@@ -13,7 +13,7 @@ META = dict(
     watchdog_s={"quick": 1500, "thorough": 5400},
     evaluations_counter="cases",
     min={"judged_steps": 5000, "steps_with_quantized_result": 500, "compared:move": 500, "compared:rescale": 100,
-         "compared:requant": 50, "compared:contraction": 200, "compared:pass": 300, "documented_refusals": 5},
+         "compared:requant": 50, "compared:contraction": 200, "compared:pass": 300, "documented_refusals": 10},
     anchors=["tensor/qtensor.py:QTensor.__torch_function__", "tensor/qbytes.py:QBytesTensor.__torch_dispatch__",
              "tensor/qbits/qbits.py:QBitsTensor.__torch_dispatch__", "tensor/qtensor.py:qfallback"],
     rule="case = one op program (depth 1..8) from a typed grammar over an operand pool mixing per-tensor qint8/qfloat8 "
@@ -32,7 +32,7 @@ META = dict(
 DT = [torch.float32, torch.float16, torch.bfloat16]
 RANK_OF = {"bmm": [3], "conv2d": [4], "matmul": [2, 2, 3], "t": [1, 2, 2], "cross_entropy": [2], "linear_rev": [2]}
 REPEAT = {"bmm": 10, "matmul": 8, "linear": 8, "linear_rev": 6, "conv2d": 4, "cat2": 3, "stack2": 3, "where": 3, "lt": 3,
-          "copy_": 3}
+          "copy_": 3, "to_other_dtype": 3, "inplace_qdest": 4, "inplace_fdest": 3}
 
 
 def crash_class(a, w, kind):
